@@ -393,7 +393,7 @@ func c10Trial(c *rt.C, pool *c10Pool, rng *rand.Rand, useGlobal bool, warm *j5co
 			return
 		case <-time.After(5 * time.Second):
 		}
-		if rt.ProcessCPU()-cpu0 < int64(20*time.Millisecond) {
+		if rt.ProcessCPU()-cpu0 < int64(250*time.Millisecond) {
 			rt.Blocked(fmt.Sprintf("C10 trial (%s codec, %d goroutines): calls on the shared codec have not returned after 125s and the process is idle", mode, nG))
 		}
 		buf := make([]byte, 1<<20)
